@@ -37,6 +37,7 @@ declare -A PROP=(
  ["wrap guards a stream's trailer"]="C11"
  ["trait model Pull adapters stop with their context"]="C10"
  ["a bus Send that runs out of time at one listener"]="C10"
+ ["a Value subscriber skips the event of a write"]="C04"
 )
 git -C /repo log --format='%h %s' | grep ' fix: ' | while read -r h subj; do
   prop=""
